@@ -55,6 +55,18 @@
 #define RB_E_OVERLAPS(e, lo, len) \
   (RB_M64((e)->address) < RB_M64(lo) + RB_M64(len) && RB_M64(lo) < RB_E_END(e))
 
+/* the code's own (wrapping, 32-bit) reading: bit-precise leaf contracts */
+#define RB_U32(x) ((uint32_t)(x))
+/* the code's (wrapping) end of an area / a register */
+#define RB_A_END32(a) RB_U32((a)->base + (a)->size)
+#define RB_E_END32(e) RB_U32((e)->address + RB_WORDS((e)->type))
+#define RB_A_NOWRAP(a) (RB_A_END(a) <= 0xffffffffull)
+#define RB_E_NOWRAP(e) (RB_E_END(e) <= 0xffffffffull)
+#define RB_PART_OF32(a, addr) ((a)->base <= (addr) && !(RB_A_END32(a) <= (addr)))
+#define RB_FITS32(a, e) (RB_E_END32(e) <= RB_A_END32(a))
+#define RB_RANGE_TOUCHES32(end32, start, addr, n) \
+  (((end32) <= (addr)) ? -1 : ((RB_U32((addr) + (n)) <= (start)) ? 1 : 0))
+
 /* list terminators as documented in register-table.h (REGISTER_AREA_END,
  * REGISTER_ENTRY_END) */
 #define RB_AREA_IS_END(a) \
@@ -363,6 +375,31 @@ static inline bool rb_init_verdict_ok(RegisterInit r, struct rb_init_expect x)
   default:
     return true;
   }
+}
+
+/* ---- register_set as register_init sees it (initialised table, valid
+ * handle, register linked to its area): accepted iff the value is valid for
+ * the register (type, constraint), the area has a write callback and the
+ * value decodes; then the register's words hold the value's image. */
+static inline bool rb_set_accepts(const RegisterTable *t, RegisterHandle idx, RegisterValue v)
+{
+  const RegisterEntry *e = &t->entry[idx];
+  return spec_valid(e, v, (t->flags & REG_TF_DURING_INIT) != 0)
+      && e->area->write != NULL
+      && spec_float_ok(e->type, spec_bits(e->type, v.value));
+}
+
+static inline bool rb_set_stored(const RegisterTable *t, RegisterHandle idx, RegisterValue v)
+{
+  const RegisterEntry *e = &t->entry[idx];
+  const uint16_t *w = e->area->mem + e->offset;
+  const unsigned n = RB_WORDS(e->type);
+  const uint64_t bits = spec_bits(e->type, v.value);
+  const bool be = (t->flags & REG_TF_BIG_ENDIAN) != 0;
+  for (unsigned k = 0; k < 4u; k++)
+    if (k < n && w[k] != spec_word(bits, n, be, k))
+      return false;
+  return true;
 }
 
 #endif
